@@ -816,6 +816,7 @@ package keeper
 // ---------------------------------------------------------------- C11 / C19: sending VSC packets
 
 //@ func Keeper.SendVSCPacketsToChain
+//@ precall SendIBCPacket [on-the-consumers-channel] $SendIBCPacket.sourceChannelID == channelId && $SendIBCPacket.sourcePortID == ccv.ProviderPortID && $SendIBCPacket.timeoutPeriod == k.GetCCVTimeoutPeriod(ctx)
 //@ loop 1 invariant [store-kept] S == old(S)
 //@ ensures [never-fails] result == nil
 //@ ensures [queue-kept-or-sent] S[providertypes.PendingVSCsKey(consumerId)] == old(S[providertypes.PendingVSCsKey(consumerId)]) || S[providertypes.PendingVSCsKey(consumerId)] == bnil
